@@ -37,6 +37,8 @@ def sc_density(B, C, D, N, floor):
     # single vector == same vector inside the batch
     o.equal("single-vs-batch", [m.log_likelihood(X[i])[0] for i in range(N)], want_ll)
     o.equal("single-shape", list(m.log_likelihood(X[0]).shape), [1])
+    # per-component values of a bare 1-D sample: one column, same numbers as inside the batch
+    o.equal("single-vector-components", [m.log_weighted_likelihood(X[i]) for i in range(N)], [[[comp[i][c]] for c in range(C)] for i in range(N)])
     o.equal("acc_stats-total", m.acc_stats(X).log_likelihood, total(want_ll))
     o.equal("module-level-fn", B.mod("gmm").log_likelihood(X, m), want_ll)
     return o
